@@ -448,6 +448,20 @@ func runC18Case(c *fw.Ctx, id string, cs c18Case) {
 			}
 			first := stepOps[0]
 			h := make(chan struct{})
+			countArms := func() int {
+				mu.Lock()
+				defer mu.Unlock()
+				k := 0
+				for _, fc := range conns {
+					for _, e := range fc.Events() {
+						if e.Kind == faultconn.SetReadDeadline && e.Err == "" && !e.Deadline.IsZero() {
+							k++
+						}
+					}
+				}
+				return k
+			}
+			armsBefore := countArms()
 			holdStart := time.Now()
 			holdSkip.Store(first)
 			hold.Store(h)
@@ -493,6 +507,13 @@ func runC18Case(c *fw.Ctx, id string, cs c18Case) {
 					time.Sleep(10 * time.Millisecond)
 					c.Count("one_of_n_checks", 1)
 					c.Count("outstanding_deadline_checks", 1)
+					// "within the read timeout of the last request sent": the deadline is
+					// armed once per request sent and never pushed out by a response, so
+					// these n requests account for at most n arming calls (decided on the
+					// recorded calls, not on the clock)
+					if arms := countArms() - armsBefore; !cs.Full && arms > n { // the full client also sends lookups and probes of its own
+						c.Violate(id, "silent:deadline-rearmed-by-response", fmt.Sprintf("%s: %d requests were sent and one was answered, but the read deadline was armed %d times: a response moved the deadline of the requests still outstanding: %s", where, n, arms, cs), cs)
+					}
 					if dl := fc.ReadDeadline(); dl.IsZero() && !fc.Closed() {
 						// (not a sampling artefact: once cleared by the processing of the
 						// only response, nothing re-arms it - no further request is sent)
